@@ -46,6 +46,13 @@ EDGE_TEXTS = [
     "x * (y + 0)", "0 * (x + y)", "(x + x) * (x + x)", "(x + y) + (x + y)", "(x * x) * (x * x)", "x * (x * x)", "2x^2 * 2x^2", "x = x", "x + 1 = x + 1", "2x + 1 = 2x + 1",
     "3x - (2x + 5)", "(7 + y) - (y + 2z)", "4z - ((z + 1) + y)", "3x - 2x", "(4 + x) - x", "x - (x - 1)", "x / (x * y)", "x^2 / x", "(x / y) / x", "6 / (3 / x)",
     "2x - (3 - 2x)", "y - (y + 20) = 100 - 120", "x * y / x", "(2 - x) - x", "-(x + x)", "-(2x) + 2x", "sgn(x) + sgn(x)", "2sgn(x) + 3sgn(x)", "x! " if False else "3! + 3!",
+    # a common numeric factor below 1 with DIFFERENT variables (factor(0.5) = {1, 0.5}: the only way
+    # unlike terms can be factored), and the same with a bare constant on one side
+    "0.5x + 0.5y", "0.25a + 0.25b + 3", "(3 + 0.5x) + 0.5y", "0.5 + 0.5y", "0.5x + 0.5", "0.1x + 0.1y^2", "0.5x^2 + 0.5y^3", "0.5x + (0.5y + z)",
+    # constant powers outside the real domain / at its edges (numpy answers nan or inf with a warning)
+    "-8^0.5 + x", "-8^(1 / 3)", "7y + -3y + -8^0.5", "-2^0.5 * x", "-1^2.5", "0^-1 + x", "0^-0.5", "(2 - 10)^0.5", "-4^0.5 * -4^0.5",
+    # the same letter in both cases is two different variables
+    "2x + 3X", "4p^2 + 3P^2", "x * X", "2x * 3X^2", "(2x + y) + 3X", "2x + 3X = 10", "x + X = 2x", "x / X", "x - X", "X + (x + X)",
     "1.5x + 1.5x", "0.1x + 0.2x", "0.1 + 0.2", "0.1 * 3", "1 / 3", "2 / 3 * 3", "10 * 0.1", "1000000 * 1000000", "99999 * 99999 + 1", "7x + 7x^1", "x^2 + x^2.0",
 ]
 
@@ -57,6 +64,9 @@ BIG_TEXTS = [
     "3 * (1000000007 * x)", "-(4294967296 * 4294967296)", "10^15 + 10^15 + x", "(99999999999x * 99999999999) + 1", "99999999999 * (99999999999 * x)",
     "x - -18446744073709551616", "x + -9223372036854775808", "18446744073709551617 / x", "x * (2^64 + y)", "18446744073709551616x * 3x^2",
     "0.0000001 + 0.0000002", "0.00002 * x * 0.5", "1 / 80000 + x", "x / 0.0000001", "123456789.123456789 - x", "2^-20 + x", "5^-9 * 5^9", "7 / 3 + 2 / 3",
+    # quotients of large constants with a genuine fractional part, and cancellation after them
+    "2469135781 / 2 - 1234567890", "12345678901 / 2 + x", "(10^12 + 1) / 2", "1000000001 / 4 * x", "9007199254740993 / 2", "x + 2469135781 / 2 - 1234567890",
+    "(2^40 + 1) / 2^20 - 2^20", "123456789012 / 1000 - 123456789",
     "0.1 + 0.2 + 0.3 + x", "1000000 * 0.000001", "33 * 0.01 - x", "(1 / 3) * 3 = x", "x = 1 / 1000000",
 ]
 
@@ -170,3 +180,32 @@ def rules_for(src, rules):
     if src == "big-text":
         return [(l, r) for l, r in rules if not l.startswith("DF")]
     return rules
+
+
+def with_flippers(rules):
+    """two more long-lived instances whose public option is changed between uses (rule.preferred,
+    rule.constants are plain attributes): whatever a rule instance remembers must not outlive a
+    change of its own settings.  The monitors take their reference from a fresh instance built
+    with the instance's *current* settings (MR.fresh_like reads them at call time)."""
+    import mathy_core.rules as R
+
+    a, b = R.CommutativeSwapRule(), R.DistributiveFactorOutRule()
+    a._vmon_flipper = b._vmon_flipper = True
+    return list(rules) + [("CS", a), ("DF", b)]
+
+
+def flip(rules, rng):
+    from .. import core
+    from ..monitors import rules as MR
+
+    out = []
+    for l, r in rules:
+        if getattr(r, "_vmon_flipper", False) and rng.random() < 0.5:
+            if hasattr(r, "preferred"):
+                r.preferred = not r.preferred
+            elif hasattr(r, "constants"):
+                r.constants = not r.constants
+            core.REC.arm("rules:option-changed-on-a-used-instance")
+            l = MR.rule_label(r)
+        out.append((l, r))
+    return out
